@@ -93,3 +93,47 @@ func Home() string {
 	}
 	return "/verif"
 }
+
+// axisParallelCrossings returns pairs of segments (a1,a2,b1,b2 as 8 numbers) with rough integer
+// ordinates in [-2^k, 2^k], k = 17..20, in which the first segment is exactly horizontal or
+// vertical and the second crosses it properly. An axis-parallel segment has an envelope of zero
+// width, so any computed crossing point must reproduce its constant ordinate bit for bit, while
+// the triple products of the usual formulas exceed 2^53 at this size. A fixed multiplicative
+// sequence supplies the ordinates; every pair is verified to cross properly in exact arithmetic
+// by the callers' oracles.
+func axisParallelCrossings() [][8]float64 {
+	var out [][8]float64
+	seq := uint64(0x9E3779B97F4A7C15)
+	next := func(k int) float64 { // rough value in [-2^k, 2^k]
+		seq = seq*6364136223846793005 + 1442695040888963407
+		v := int64(seq>>11) % (int64(1)<<uint(k+1) + 1)
+		return float64(v - int64(1)<<uint(k))
+	}
+	for k := 17; k <= 20; k++ {
+		for n := 0; n < 160; n++ {
+			y := next(k)
+			x1, x2 := next(k), next(k)
+			if x1 > x2 {
+				x1, x2 = x2, x1
+			}
+			if x2-x1 < 4 {
+				continue
+			}
+			// the crossing abscissa strictly inside (x1,x2): pick the second segment through a
+			// lattice point (xc, y +- h) pair on opposite sides, ends rough
+			bx1, bx2 := next(k), next(k)
+			h1, h2 := math.Abs(next(k))+1, math.Abs(next(k))+1
+			b1 := [2]float64{bx1, y - h1}
+			b2 := [2]float64{bx2, y + h2}
+			// exact crossing abscissa as a rational: bx1 + (bx2-bx1)*h1/(h1+h2); keep the pair when
+			// it lies strictly inside
+			xc := bx1 + (bx2-bx1)*h1/(h1+h2)
+			if !(xc > x1+1 && xc < x2-1) {
+				continue
+			}
+			out = append(out, [8]float64{x1, y, x2, y, b1[0], b1[1], b2[0], b2[1]})
+			out = append(out, [8]float64{y, x1, y, x2, b1[1], b1[0], b2[1], b2[0]}) // vertical
+		}
+	}
+	return out
+}
